@@ -260,6 +260,10 @@ func runLockup(seed uint64, n int, outDir string, replay string) {
 						if allAfter := allRecs(); allAfter != allBefore {
 							// e.g. a record claimed by an earlier, successful frame of the same transaction comes back
 							o.Violate("c12-reverted-frame-changes-other-lockup-records", "the lockup ledger (all owners, miners, bytes, epochs) differs before and after a frame that claimed and reverted")
+							if len(evm.ETXCache) > 0 {
+								// the earlier frame completed: its ETX stays emitted while the debit it stands for is undone
+								o.Violate("c05-completed-claim-undone-by-later-revert", fmt.Sprintf("a frame that reverted changed lockup records it did not own while %d ETX(s) of earlier, completed claims of the same transaction stay emitted: a completed frame's effects are no longer all there", len(evm.ETXCache)))
+							}
 						}
 					}
 				case x < 85:
